@@ -14,11 +14,11 @@ ENV = dict(os.environ, GOFLAGS="-mod=mod", GOPROXY="off", GOSUMDB="off", GOTOOLC
 ENV.pop("GOWORK", None)
 PKGDIR = {"gomavlib": ".", "frame": "pkg/frame", "message": "pkg/message", "streamwriter": "pkg/streamwriter", "tlog": "pkg/tlog",
           "conversion": "pkg/conversion", "timednetconn": "pkg/timednetconn", "dialects": "pkg/dialects", "common": "pkg/dialects/common",
-          "dialect": "pkg/dialect", "x25": "pkg/x25"}
+          "dialect": "pkg/dialect", "x25": "pkg/x25", "ardupilotmega": "pkg/dialects/ardupilotmega", "minimal": "pkg/dialects/minimal"}
 PROPS = ["C%02d" % i for i in range(1, 21)]
 
 def sh(cmd, cwd=None, timeout=1500):
-    p = subprocess.run(cmd, shell=True, cwd=cwd, env=ENV, stdout=subprocess.PIPE, stderr=subprocess.STDOUT, text=True, timeout=timeout)
+    p = subprocess.run(cmd, shell=True, cwd=cwd, env=ENV, stdout=subprocess.PIPE, stderr=subprocess.STDOUT, text=True, errors="replace", timeout=timeout)
     return p.returncode, p.stdout
 
 def netns(cmd):
@@ -26,7 +26,7 @@ def netns(cmd):
 
 def verify(seed_dir):
     tag, k = seed_dir.rstrip("/").split("/")[-2:]
-    prop = tag.lstrip("UVX")  # later-round seeds live under /tmp/seed/UCxx, /tmp/seed/VCxx
+    prop = tag.lstrip("UVXZ")  # later-round seeds live under /tmp/seed/UCxx, /tmp/seed/VCxx
     sid = "%s-%s" % (tag, k)
     wt = "/tmp/seedwt/" + sid
     res = {"id": sid, "property": prop}
@@ -118,7 +118,7 @@ def verify(seed_dir):
 
 def main():
     os.makedirs("/tmp/seedwt", exist_ok=True)
-    dirs = sorted(d for d in glob.glob("/tmp/seed/C*/[0-9]") + glob.glob("/tmp/seed/UC*/[0-9]") + glob.glob("/tmp/seed/VC*/[0-9]") + glob.glob("/tmp/seed/XC*/[0-9]") if os.path.exists(os.path.join(d, "patch.diff")))
+    dirs = sorted(d for d in glob.glob("/tmp/seed/C*/[0-9]") + glob.glob("/tmp/seed/UC*/[0-9]") + glob.glob("/tmp/seed/VC*/[0-9]") + glob.glob("/tmp/seed/XC*/[0-9]") + glob.glob("/tmp/seed/ZC*/[0-9]") if os.path.exists(os.path.join(d, "patch.diff")))
     if len(sys.argv) > 1:
         dirs = [d for d in dirs if any(a in d for a in sys.argv[1:])]
     with ThreadPoolExecutor(max_workers=5) as ex:
